@@ -12,10 +12,12 @@ RULE = ('The protocol monitor (per endpoint, per stream: SETUP first and once, c
         'ids start with a request frame of the endpoint\'s parity on an id that is not live, only the frame types the '
         'role allows, positive initial request-n, no PAYLOAD after the own complete flag, nothing after own ERROR / '
         'requester CANCEL / both directions complete, at most one CANCEL, one response) is applied to every run of '
-        'three Hypothesis generators: (1) a dedicated race generator - cancels of every kind placed around resolve / '
+        'five Hypothesis generators: (1) a dedicated race generator - cancels of every kind placed around resolve / '
         'deliver / tick operations in manual and pumped delivery, "deliver the response then cancel before the receiver '
         'runs", handler and publisher failures, lease on/off with requests queued behind a lease, fragmentation, both '
-        'roles; (2) the C01 delivery programs; (3) the C05 multiplexing programs. Reception-dependent rules are judged '
+        'roles, requests issued while connect() waits for its transport; (2) the C01 delivery programs; (3) the C05 '
+        'multiplexing programs; (4) the C09 cancellation programs; (5) the C17 reconnect histories (every connection of a '
+        'client judged separately: nothing of the previous connection may appear on the next). Reception-dependent rules are judged '
         'at the moment the library decided to emit where the harness can know it (request-response CANCEL: the done '
         'callback of the cancelled future), so frames already queued when a peer frame arrives are never blamed. '
         'Non-trivial = the run contains a cancel or error racing other traffic, or lease, or fragmentation; distinct = '
@@ -126,6 +128,13 @@ def lease_sig_rewrite(program, tr, vs):
     return vs
 
 
+def reconnect_programs():
+    """C17's reconnect histories (endings, pending requests still queued behind a writer that stopped draining, requests
+    issued during the reconnect), judged here by the role monitor on every connection separately."""
+    from harness.checks import c17
+    return c17.cases().map(lambda case: dict(c17.build(case)[0], gen='reconnect'))
+
+
 def prop(program):
     p = program
     if p.get('gen') == 'c05':
@@ -168,6 +177,18 @@ REGRESSION = [
                 'sub': {'n0': 5, 'refill': 0}, 'rsrc': {'kind': 'manual', 'els': [[4, 0], [4, 0]], 'end': 'sep'},
                 'rsub': {'n0': 5, 'refill': 0}}],
      'ops': [['start'], ['tick', 4], ['cancel', 0, 'resp'], ['tick', 2], ['emit', 0, 'req', 1], ['tick', 2]]},
+    # D21: channel responder whose generator publisher failed at once; a later REQUEST_N must not make it fail (send ERROR) again
+    {'gen': 'race', 'cfg': {'msg': False, 'frag': [None, None], 'rbuf': [1024, 1024]},
+     'inter': [{'k': 'ch', 'side': 'c', 'req': [0, 0], 'src': {'kind': 'gen', 'els': [], 'end': 'flag', 'awaits': 0, 'err_at': 0},
+                'sub': {'n0': 5, 'refill': 0}, 'rsrc': {'kind': 'manual', 'els': [], 'end': 'flag'},
+                'rsub': {'n0': 5, 'refill': 0}}],
+     'ops': [['start'], ['tick', 4], ['req', 0, 'resp', 1], ['tick', 3]]},
+    # ... and one that completed: the elements must not be sent a second time
+    {'gen': 'race', 'cfg': {'msg': False, 'frag': [None, None], 'rbuf': [1024, 1024]},
+     'inter': [{'k': 'ch', 'side': 'c', 'req': [0, 0], 'src': {'kind': 'gen', 'els': [[4, 0], [5, 0]], 'end': 'sep', 'awaits': 0},
+                'sub': {'n0': 5, 'refill': 0}, 'rsrc': {'kind': 'manual', 'els': [[3, 0]], 'end': 'sep'},
+                'rsub': {'n0': 5, 'refill': 0}}],
+     'ops': [['start'], ['tick', 4], ['req', 0, 'resp', 3], ['tick', 3]]},
 ]
 
 
@@ -193,6 +214,8 @@ def shard(tier, seed, n, which):
     elif which == 'c09':
         from harness.checks import c09
         strat = tagged(c09.programs(), 'c09')
+    elif which == 'reconnect':
+        strat = reconnect_programs()
     common.hyp_search(stats, known, strat, prop, n, seed, classify=classify, shrink=True)
     return stats
 
@@ -201,7 +224,7 @@ def run(tier, seed):
     t0 = time.time()
     total = 2400 if tier == 'quick' else 80000
     seeds = common.shard_seeds(seed, common.NPROC)
-    plan = ['race'] * 8 + ['c01'] * 3 + ['c05'] * 3 + ['c09'] * 2
+    plan = ['race'] * 7 + ['c01'] * 3 + ['c05'] * 3 + ['c09'] * 2 + ['reconnect']
     try:
         from harness.checks import c09  # noqa
     except ImportError:
